@@ -18,6 +18,14 @@ use crate::simulation::ModelId;
 use crate::time::AtomicTimeReader;
 use task::Promise;
 
+#[cfg(nexosim_verif)]
+pub(crate) use task::{
+    spawn as verif_spawn, spawn_and_forget as verif_spawn_and_forget, CancelToken as VerifCancelToken,
+    Promise as VerifPromise, Runnable as VerifRunnable,
+};
+#[cfg(nexosim_verif)]
+pub(crate) use task::VerifStage;
+
 /// Unique identifier for executor instances.
 static NEXT_EXECUTOR_ID: AtomicUsize = AtomicUsize::new(0);
 
